@@ -261,7 +261,23 @@ PROGRAMS = {
     "toffoli": [("H", 0), ("RY", "a", 1), ("CCX", 0, 1, 2), ("CSWAP", 2, 0, 1)],
     "controls": [("RY", "a", 0), ("RY", "b", 1), ("X", 2, {"controls": (0, 1)}), ("RZ", "c", 0, {"controls": (2,)})],
     "distant-param": [("RY", "a", 0), ("CRX", "b", 0, 2), ("CRY", "c", 2, 0), ("PHASE", "a", 1)],
+    # genuinely complex amplitudes (RX / T / RZ / Y): reduced density matrices have imaginary off-diagonal
+    # entries on every site subset, so a transposed / conjugated answer differs from the true one
+    "complex": [("RX", "a", 0), ("RY", "b", 2), ("CX", 0, 2), ("T", 2), ("RX", "b", 1), ("CX", 2, 1), ("RZ", "a", 1)],
+    "complex-y": [("RX", "a", 1), ("T", 1), ("RY", "b", 0), ("CY", 1, 0), ("RZ", "b", 2), ("RX", "a", 2), ("CZ", 0, 2)],
+    # a non-adjacent two-qubit gate comes first (the permutation-tracking simulator then holds a non-trivial
+    # site <-> qubit map), followed by SWAP / IDEN specials and further one- and two-qubit gates
+    "perm-swap01": [("RY", "a", 0), ("RX", "b", 1), ("RY", "c", 2), ("CX", 0, 2), ("SWAP", 0, 1), ("IDEN", 2), ("CX", 1, 2)],
+    "perm-swap12": [("RY", "a", 0), ("RX", "b", 1), ("CX", 0, 2), ("SWAP", 1, 2), ("RY", "c", 1), ("CX", 1, 0)],
+    "perm-swap20": [("RY", "a", 0), ("RX", "b", 1), ("RY", "c", 2), ("CX", 2, 0), ("SWAP", 2, 0), ("CZ", 0, 1), ("RY", "a", 1)],
+    "perm4-swap12": [("RY", "a", 0), ("RX", "b", 1), ("RY", "c", 2), ("CX", 0, 3), ("SWAP", 1, 2), ("IDEN", 0), ("CX", 1, 3)],
+    "perm4-mixed": [("RY", "a", 0), ("RX", "b", 1), ("RY", "c", 3), ("CX", 0, 2), ("SWAP", 0, 1), ("CZ", 1, 3), ("SWAP", 3, 2),
+                    ("CX", 2, 0)],
 }
+# number of qubits of a program (default 3)
+PROG_N = {"perm4-swap12": 4, "perm4-mixed": 4}
+# programs added for the query / permutation coverage of the MPS classes
+_NEW_PROGS = ("complex", "complex-y", "perm-swap01", "perm-swap12", "perm-swap20", "perm4-swap12", "perm4-mixed")
 TWOQ_PARAM = {"RZZ", "RXX", "RYY", "FSIM", "CU3", "CU2", "CU1", "CRX", "CRY", "CRZ", "CPHASE", "GIVENS"}
 
 
@@ -356,39 +372,74 @@ def _conj(a):
 NOSIMP = dict(simplify_sequence="", simplify_equalize_norms=False)
 
 
+# ---- reference values of the queries, from a dense state vector (explicit loops: qv.ref)
+
+def ref_rdm(v, N, keep):
+    """reduced density matrix of the sites ``keep`` (rows / columns ordered as requested)"""
+    T = np.asarray(v).reshape((2,) * N)
+    lab = tuple(f"k{i}" for i in range(N))
+    out = tuple(f"k{i}" for i in keep) + tuple(f"b{i}" for i in keep)
+    bl = tuple(f"b{i}" if i in keep else f"k{i}" for i in range(N))
+    return ref.sum_of_products([(T, lab), (_conj(T), bl)], out).reshape(2 ** len(keep), 2 ** len(keep))
+
+
+def ref_expect(v, N, O, where):
+    """<v| O_where |v>"""
+    M = ref.embed(O, [2] * N, where)
+    want = 0
+    for x, y in zip(_conj(v), ref.matmul(M, v)):
+        want = want + x * y
+    return want
+
+
+def ref_marginal(v, N, where, fix=None):
+    """probability tensor of the qubits ``where`` (other qubits traced out, or projected on ``fix``)"""
+    v = np.asarray(v).reshape(-1)
+    probs = np.array([x * y for x, y in zip(_conj(v), v)], dtype=v.dtype).reshape((2,) * N)
+    if fix:
+        idx = tuple(int(fix[i]) if i in fix else slice(None) for i in range(N))
+        rest = [i for i in range(N) if i not in fix]
+        probs = probs[idx]
+        lab = tuple(f"k{i}" for i in rest)
+    else:
+        lab = tuple(f"k{i}" for i in range(N))
+    return ref.sum_of_products([(probs, lab)], tuple(f"k{i}" for i in where))
+
+
+def query_args(N):
+    """query arguments used for an N-qubit program: bit strings, kept / acted-on site tuples (one- and
+    two-site, in increasing and in decreasing order)"""
+    if N == 3:
+        return dict(bits=("000", "101", "011"), keep=((1,), (2, 0)), where=((0,), (2, 0)), marg=((1,), (2, 0)))
+    assert N == 4
+    return dict(bits=("0000", "1010", "0111"), keep=((1,), (3, 0), (1, 2)), where=((0,), (3, 1), (0, 2)), marg=((3,), (2, 0)))
+
+
 def query_goals(mk, circ, v, N, tag, full=True):
     """all value queries of a circuit holding the reference state v (simplification passes are
     switched off here: their value-dependent structure detection is the subject of C04)"""
     kw = NOSIMP if isinstance(circ, qtn.Circuit) else {}
+    qa = query_args(N)
     dense = np.asarray(circ.to_dense(**kw)).reshape(-1)
     mk.eq(f"{tag}: to_dense() == reference state", dense, v)
     if not full:
         return
-    for b in ("000", "101", "011"):
+    for b in qa["bits"]:
         idx = int(b, 2)
         mk.eq(f"{tag}: amplitude('{b}')", circ.amplitude(b, **kw), v[idx])
-    T = v.reshape((2,) * N)
-    lab = [f"k{i}" for i in range(N)]
-    for keep in ((1,), (2, 0)):
-        out = tuple(f"k{i}" for i in keep) + tuple(f"b{i}" for i in keep)
-        bl = tuple(f"b{i}" if i in keep else f"k{i}" for i in range(N))
-        want = ref.sum_of_products([(T, tuple(lab)), (_conj(T), bl)], out)
+    for keep in qa["keep"]:
+        want = ref_rdm(v, N, keep)
         rho = np.asarray(circ.partial_trace(keep, **kw))
         mk.eq(f"{tag}: partial_trace({keep}) == dense reduced state (sites in the requested order)", rho, want.reshape(rho.shape))
-    for where in ((0,), (2, 0)):
-        O = mk.array(f"O{len(where)}", (2 ** len(where),) * 2, "cplx")
-        M = ref.embed(O, [2] * N, where)
-        want = 0
-        Mv = ref.matmul(M, v)
-        for x, y in zip(_conj(v), Mv):
-            want = want + x * y
+    for where in qa["where"]:
+        nm = f"O{len(where)}" if N == 3 else "O" + "".join(map(str, where))
+        O = mk.array(nm, (2 ** len(where),) * 2, "cplx")
+        want = ref_expect(v, N, O, where)
         mk.eq(f"{tag}: local_expectation(O, {where}) == <psi|O|psi>", circ.local_expectation(O, where, **kw), want)
-    # marginal of qubit 1 and of (2, 0)
-    probs = np.array([x * y for x, y in zip(_conj(v), v)], dtype=v.dtype).reshape((2,) * N)
+    # marginals
     if hasattr(circ, "compute_marginal"):
-        for where in ((1,), (2, 0)):
-            others = tuple(i for i in range(N) if i not in where)
-            want = ref.sum_of_products([(probs, tuple(lab))], tuple(f"k{i}" for i in where))
+        for where in qa["marg"]:
+            want = ref_marginal(v, N, where)
             try:
                 m = circ.compute_marginal(where, dtype="complex128", **kw)
             except (TypeError, NotImplementedError) as e:
@@ -429,7 +480,7 @@ def exact_simulators(mk, sim, cfg, prog):
     mk.encodes(ccore.CircuitBase.apply_gate, ccore.CircuitBase._apply_gate, cexact.Circuit.to_dense, cexact.Circuit.amplitude,
                cexact.Circuit.partial_trace, cexact.Circuit.local_expectation, cexact.Circuit.compute_marginal,
                cexact.Circuit.get_uni, G.Gate, G.apply_swap)
-    N = 3
+    N = PROG_N.get(prog, 3)
     p = build_program(mk, prog)
     if sim == "Circuit" and cfg in ("default", "split-gate", "swap-split-gate") and _has_sym_2q(p) and mk.sym:
         mk.note("numerical rank detection on a symbolic two-qubit gate: numeric cross-run only")
